@@ -338,3 +338,9 @@ B("c09-lbf-minus-moves", "C09", "C09.R9", (R + "lbf/utils.py", "simulate_agent_m
 B("c09-sokoban-box-minus", "C09", "C09.R9", (R + "sokoban/env.py", "Sokoban.move_agent", "expr", "next_location + MOVES[action]", "next_location - MOVES[action]"))
 T("c09-twin-lbf-commuted", "C09", (R + "lbf/utils.py", "simulate_agent_movement", "expr", "agent.position + MOVES[action]", "MOVES[action] + agent.position"))
 B("c04-cvrp-mask-lost-negation", "C04", None, (R + "cvrp/env.py", "CVRP._state_to_observation", "expr", "~state.visited_mask", "state.visited_mask"))
+
+# ---------------------------------------------------------------- C10.R7 GraphColoring adjacency
+B("c10-graphcoloring-no-tril", "C10", "C10.R7", (L + "graph_coloring/generator.py", "RandomGenerator.__call__", "delete", "adj_matrix = jnp.tril(adj_matrix, k=-1)"))
+B("c10-graphcoloring-diag", "C10", "C10.R7", (L + "graph_coloring/generator.py", "RandomGenerator.__call__", "expr", "jnp.tril(adj_matrix, k=-1)", "jnp.tril(adj_matrix, k=0)"))
+B("c10-graphcoloring-asym", "C10", "C10.R7", (L + "graph_coloring/generator.py", "RandomGenerator.__call__", "delete", "adj_matrix += adj_matrix.T"))
+T("c10-twin-graphcoloring-triu", "C10", (L + "graph_coloring/generator.py", "RandomGenerator.__call__", "expr", "jnp.tril(adj_matrix, k=-1)", "jnp.triu(adj_matrix, k=1)"))
